@@ -54,6 +54,16 @@ def collection_entries(name, mps):
         e = [(1, 0, 1), (2, 0, 2)]
     elif name == "mixed":      # fixed + runtime descriptors (for the multiplexer / distributed handler)
         e = [(1, 0, 18), (2, 0, 2 * m), (3, 0, 4), (3, 1, m, True), (3, 4, m + 2, True), (3, 6, 2 * m), (6, 0, 10, True)]
+    # single-hole families: exactly one index missing in one type (max index == number of descriptors of the type), the other
+    # types consecutive -- the borderline between "consecutive" and "sparse" index tables
+    elif name == "hole-top":    # strings 0,1,2,4: the hole sits just below the highest index
+        e = [(1, 0, 18), (2, 0, m + 1), (3, 0, 4), (3, 1, m), (3, 2, 6), (3, 4, 10)]
+    elif name == "hole-bottom": # a type with indices 1,2 only (hole at 0)
+        e = [(1, 0, 18), (2, 1, m + 1), (2, 2, 5), (3, 0, 4), (3, 1, 7)]
+    elif name == "hole-mid":    # indices 0,2,3 (hole in the middle), in the highest type; a second type with a hole of width two
+        e = [(1, 0, 18), (3, 0, 4), (3, 1, m), (6, 0, 3), (6, 2, 9), (6, 3, m + 2)]
+    elif name == "hole-wide":   # 0,1,4: two missing below the top (max index > count) next to a single-hole type
+        e = [(1, 0, 18), (2, 0, 9), (2, 2, 5), (3, 0, 4), (3, 1, m), (3, 4, 12)]
     elif name == "empty":      # a zero-length descriptor between others (the data stage is then a single zero-length packet)
         e = [(1, 0, 18), (2, 0, 0), (3, 0, 4), (3, 1, 0)]
     elif name == "big":        # several hundred bytes
@@ -112,11 +122,12 @@ def request_menu(entries, mps, tier):
     empty = [t for t in range(0, tmax + 1) if t not in types]
     absent += [(t, 0) for t in empty[:1] + [t for t in empty if t > types[0]][:1]]    # empty types below / in between
     absent += [(tmax + 1, 0), (0x42, 0), (0xFF, 0xFF)]
-    for t in types[:3] + types[-1:]:
+    for t in types:
         idx = sorted(i for tt, i in present if tt == t)
-        for cand in range(0, idx[-1]):
-            if cand not in idx: absent.append((t, cand)); break  # a gap
-        absent += [(t, idx[-1] + 1), (t, 0xFF)]
+        gaps = [c for c in range(0, idx[-1]) if c not in idx]
+        absent += [(t, c) for c in gaps[:1] + gaps[-1:]]         # lowest and highest missing index below the top
+        absent += [(t, idx[-1] + 1)]
+        if t in types[:3] + types[-1:]: absent.append((t, 0xFF))
     seen = set()
     for t, i in absent:
         if (t, i) in present or (t, i) in seen: continue
@@ -161,8 +172,8 @@ def configs(tier):
         sa("block", "sparse", 64); sa("dist", "sparse", 64)
         sa("block", "dense", 16); sa("dist", "dense", 32)
         sa("mux", "mixed", 8); sa("mux", "mixed", 16); sa("dist", "mixed", 16)
-        sa("block", "single", 8); sa("dist", "single", 8)
-        sa("dist", "tiny", 8); sa("block", "empty", 8)
+        sa("block", "hole-top", 8); sa("block", "hole-bottom", 16); sa("block", "hole-mid", 8)
+        sa("block", "empty", 8)
         cs.append(dict(kind="device", handler="block", gap=1, pace=1, transfers=2, lost=1))
         cs.append(dict(kind="device", handler="dist", gap=1, pace=1, transfers=2, lost=1))
         cs.append(dict(kind="device", handler="mux", gap=1, pace=1, transfers=2, lost=1))
@@ -173,6 +184,9 @@ def configs(tier):
             sa("mux", "mixed", mps); sa("dist", "mixed", mps)
         for h in ("block", "dist"):
             sa(h, "single", 8); sa(h, "single", 64); sa(h, "tiny", 8); sa(h, "big", 64); sa(h, "big", 32); sa(h, "empty", 8)
+        for coll in ("hole-top", "hole-bottom", "hole-mid", "hole-wide"):
+            for mps in (8, 16):
+                sa("block", coll, mps); sa("dist", coll, mps)
         for h in ("block", "dist", "mux"):
             cs.append(dict(kind="device", handler=h, gap=1, pace=1, transfers=2, lost=2))
             cs.append(dict(kind="device", handler=h, gap=3, pace=2, transfers=2, lost=1))
